@@ -33,5 +33,10 @@ def run(repo, tier) -> Result:
     from ..manager_rules import check_fill
 
     check_lifespan_flow("C15", res, repo)
+    # state kept between calls is keyed by list positions that trimming shifts
+    from ..driver import check_state
+    from .c01 import formula_functions
+
+    check_state("C15", res, repo, formula_functions(repo))
     check_fill("C15", res, repo)
     return res
